@@ -61,6 +61,15 @@ Theorem C07_peekfileid_bounded : peekfileid_bounded = true.
 Proof. reflexivity. Qed.
 Print Assumptions C07_peekfileid_bounded.
 
+(* ... also when its last message straddles the end of a corrupted sequence: every message PeekFileId decodes ends within the
+   declared data size or the call fails, so a Discard after it ends exactly where the sequence ends (holds since
+   fix: 7fda71f; before it, [PeekFileId, Discard] on a predecessor whose records overran its data size left the decoder in the
+   middle of the next sequence, whose Decode then failed although a fresh decoder decodes it) *)
+Theorem C07_peekfileid_stays_inside : forall c fuel s s', until_file_id fuel c s = Base.Ok s' ->
+  s' = s \/ s_cur s' <= h_datasize (s_header s').
+Proof. exact (fun c => until_file_id_inside c eq_refl). Qed.
+Print Assumptions C07_peekfileid_stays_inside.
+
 (* C03: errors are sticky until Reset *)
 Theorem C07_error_is_sticky : forall a e o, a_err a = Some e -> (forall bs c, o <> AReset bs c) -> o <> ASeekStart ->
   fst (api_step a o) = a /\ (snd (api_step a o) = RErr e \/ snd (api_step a o) = RBool false \/ snd (api_step a o) = RIntegrity 0 (Some e)).
